@@ -79,7 +79,8 @@ pub fn twin_events(case: &Value, out: &mut Vec<Value>) {
         }
         // auxiliaries of b are the variables a's source does not declare
         let declared: std::collections::HashSet<String> = a["sdom"].as_array().unwrap().iter().map(|d| d["name"].as_str().unwrap().to_string()).collect();
-        if let Some(vars) = b["lm"]["vars"].as_array_mut() {
+        // (indexing a missing key would insert a JSON null, which the TLA+ Json module cannot read)
+        if let Some(vars) = b.get_mut("lm").and_then(|lm| lm.get_mut("vars")).and_then(|v| v.as_array_mut()) {
             for v in vars.iter_mut() {
                 let n = v["name"].as_str().unwrap().to_string();
                 v["aux"] = json!(!declared.contains(&n));
